@@ -11,8 +11,9 @@ B (bounded, the only tier): the class as a data structure against an abstract vi
        ensures  result == result of the same call on a freshly built GroupBy (values, index, labels, order; dtype as a separate clause; an exception counts as a result)
                 view(new) == view(old)                                          [frame]
                 well_formed(new)
+   An operation started from a state that an EARLIER operation of the sequence already broke (view moved / invariant lost - reported at that operation) owes nothing: its result is not compared.
    History independence for sequences of any length follows from the per-operation contract by induction over the history; what is bounded is the set of inputs and the
-   set of states each operation is started from: every operation after every sequence of <= 1 (quick) / <= 2 (thorough) earlier operations.
+   set of states each operation is started from: every operation after every history of <= 1 (quick) / <= 2 (thorough) operations of the history alphabet.
    Copy constructor: `copy:<op>` runs <op> on GroupBy(gb) and must equal <op> on a fresh object; `rebind` continues the sequence on GroupBy(gb).
    Class-level form: `cls:<op>` = GroupBy.<op>(raw keys, ...) must equal GroupBy(raw keys).<op>(...).
 Sidecar contracts on the real functions: GroupBy._unify_group_key_chunks (the re-layout keeps every row's logical group, drops the pointer tables, honours keep_chunked),
@@ -29,8 +30,8 @@ ASSUMPTIONS = ["the reference of every comparison is the same call on a GroupBy 
                "BOUNDED: everything here is checked only within the stated scope"]
 REQUIRED_CONTRACTS = {"core.GroupBy._unify_group_key_chunks": 1, "core.GroupBy.__init__": 1, "core.GroupBy._build_group_sorted_indexer_numba": 1}
 EXPLANATION = ("Bounded only (object state is pandas/pyarrow). Per-operation contract (result == fresh result, abstract view unchanged, class invariant kept) evaluated on the real class for every operation of a "
-               "62-operation alphabet started from every state reachable by <= 1 (quick) / <= 2 (thorough) earlier operations, on a designed set of key arrays covering the representation modes "
-               "{contiguous; chunked with pointer tables; chunked unified in place; concatenated}, null placement and first-appearance orders.")
+               "62-operation alphabet started from every state reachable by <= 1 (quick) / <= 2 (thorough) earlier operations of a history alphabet, on a designed set of key arrays covering the representation modes "
+               "{contiguous; chunked with pointer tables; chunked unified in place; concatenated}, null placement and first-appearance orders; copy constructor and class-level call forms as operations.")
 BUDGET = {"quick": 90, "thorough": 500}
 EXHAUSTIVE_WHEN_COMPLETE = False          # the key arrays are a designed set, not a complete small scope
 CATS = ["c", "a", "b", "unused"]
@@ -180,15 +181,11 @@ RULE = "a case = (key array spec, operation sequence); every operation of the se
 
 def cases(tier, seed):
     from .c07 import permuted
-    def singles():
-        for spec in KEYSPECS:
-            for o in LAST: yield {"key": spec, "ops": [o]}
-            if spec["sort"]:
-                for o in CLS: yield {"key": spec, "ops": ["cls:" + o]}
-    def seqs(*alphabets):
-        for pick in permuted(list(alphabets) + [KEYSPECS], seed): yield {"key": pick[-1], "ops": list(pick[:-1])}
+    sorted_specs = [k for k in KEYSPECS if k["sort"]]
+    def seqs(*alphabets, keys=KEYSPECS, prefix=""):
+        for pick in permuted(list(alphabets) + [keys], seed): yield {"key": pick[-1], "ops": [prefix + o if i == len(pick) - 2 else o for i, o in enumerate(pick[:-1])]}
     rest = [o for o in FIRST if o not in MUT]
-    streams = [singles(), seqs(MUT, LAST), seqs(rest, LAST)]; weights = [1, 4, 3]
+    streams = [seqs(LAST), seqs(CLS, keys=sorted_specs, prefix="cls:"), seqs(MUT, LAST), seqs(rest, LAST)]; weights = [2, 1, 4, 3]
     if tier == "thorough": streams.append(seqs(MUT, MUT, LAST)); weights.append(8)
     return C.roundrobin(*streams, weights=weights)
 
